@@ -108,6 +108,21 @@ theorem C07_views_wellformed (v : View) (h : viewOk .top v = true) :
     (OooWf (compile true .top v) ∧ oooDocOps (compile true .top v) = viewDoc v) :=
   ⟨(compile_inOrd _).1 .top v (Nat.le_refl _) h, (compile_oooWf _).1 .top v (Nat.le_refl _) h⟩
 
+/-- **C07_marker_ids** (`next_id`, sub-builder `id.push(0)`): in an `OooWf` program the out-of-order chunks pushed
+    into the top-level builder carry the pairwise distinct ids `[1], [2], …`, and the chunks a resolved out-of-order
+    future with id `I` (marker text `piecesStr I`) pushes into its sub-builder carry pairwise distinct ids
+    `I ++ [1], I ++ [2], …` — every marker id is a distinct path in the tree of boundaries, whatever the schedule.
+    (Refuted for programs with `ErrorBoundary` sub-builders: `C07_eb_ooo_witness`.) -/
+theorem C07_marker_ids :
+    (∀ (prog : List Op), OooWf prog → ∀ (done0 : List FId),
+      (∀ i ∈ oooIds (startStream true done0 prog).b.chunks, ∃ j, 1 ≤ j ∧ i = some [j]) ∧
+      (oooIds (startStream true done0 prog).b.chunks).Nodup) ∧
+    (∀ (env : Env) (p : PendOoo) (I : List Nat), p.id = some I → OooWf p.body →
+      (resolveOoo env p).id = piecesStr I ∧
+      (∀ i ∈ oooIds (resolveOoo env p).chunks, ∃ j, 1 ≤ j ∧ i = some (I ++ [j])) ∧
+      (oooIds (resolveOoo env p).chunks).Nodup) :=
+  ⟨fun prog hw done0 => startStream_ids prog hw done0, fun env p I hI hw => resolveOoo_ids env p I hI hw⟩
+
 /-- **C07_in_order_views.** For every such view and every schedule the in-order stream concatenates to the
     synchronous render of the fully resolved view. -/
 theorem C07_in_order_views (v : View) (h : viewOk .top v = true) (done0 : List FId) (sched : List (List FId)) :
@@ -145,6 +160,7 @@ def cleanOp : Op → Bool
   | .nextId => true
   | .sub body => cleanOps body
   | .ite _ t e => cleanOps t && cleanOps e
+  | .finish => true
 def cleanOps : List Op → Bool
   | [] => true
   | o :: os => cleanOp o && cleanOps os
@@ -160,18 +176,62 @@ def C07_out_of_order_stmt : Prop :=
       ((startStream true done0 prog).polls sched).out.getLast? = some Poll.done →
       applyScripts (itemsOf ((startStream true done0 prog).polls sched).out) = oooDocOps prog
 
-/-- OPEN (not proved). **C07_fallback_until_ready**: at every moment (not only at the end) the document the client
-    shows is the program's document in which exactly the out-of-order futures that are *not yet ready* still show
-    their fallback: `partialDoc ready` renders a triple as its body when `ready` holds of its future and as its
-    fallback otherwise.  With `ready = fun _ => true` this is `C07_out_of_order_stmt`. -/
+/-- remove every marker comment `<!--s-…-->` (fuel: one per `<`) -/
+def stripMarkersAux : Nat → Str → Str
+  | 0, s => s
+  | fuel + 1, s =>
+    match splitFirst "<!--s-".toList s with
+    | none => s
+    | some (a, rest) =>
+      match splitFirst "-->".toList rest with
+      | none => s
+      | some (_, rest') => a ++ stripMarkersAux fuel rest'
+def stripMarkers (s : Str) : Str := stripMarkersAux s.length s
+
+/-- the document in which exactly the out-of-order futures in `shown` have been replaced by their content and
+    the others still show their fallback -/
+def partialDocOps (shown : Fut → Bool) : List Op → Str
+  | [] => []
+  | .fallback s :: .ooo fut _ body _ :: os =>
+    (if shown fut then partialDocOps shown body else s) ++ partialDocOps shown os
+  | .sync s :: os => s ++ partialDocOps shown os
+  | .ite fut t e :: os =>
+    (if shown fut then partialDocOps shown t else partialDocOps shown e) ++ partialDocOps shown os
+  | _ :: os => partialDocOps shown os
+
+/-- OPEN (not proved). **C07_fallback_until_ready** at the level of the document: at every moment what the client
+    shows (scripts applied to everything yielded plus the unflushed buffer, marker comments ignored) is the program's
+    document in which some set `shown` of out-of-order futures has been replaced by content and every other one still
+    shows its fallback — and every future in `shown` has completed (content never appears before it is ready; a
+    fallback disappears only in exchange for its content).  Stated for programs whose futures are pairwise distinct
+    (`Fut` then names the triple) and after at least one poll (from then on the builder's queue holds no text). -/
 def C07_fallback_until_ready_stmt : Prop :=
-  ∀ (prog : List Op), OooWf prog → cleanOps prog = true →
-    ∀ (done0 : List FId) (sched : List (List FId)),
-      ((startStream true done0 prog).polls sched).out.getLast? = some Poll.pending →
-      ((startStream true done0 prog).polls sched).b.syncBuf = [] →
+  ∀ (prog : List Op), OooWf prog → cleanOps prog = true → (futsOps prog).Nodup →
+    ∀ (done0 : List FId) (sched : List (List FId)), sched ≠ [] →
       ∃ shown : Fut → Bool,
-        (∀ fut, shown fut = true → fut.deps.all (fun d => (done0 ++ sched.flatten).contains d) = true) ∧
-        True
+        (∀ fut, shown fut = true → ∀ d ∈ fut.deps, d ∈ done0 ++ sched.flatten) ∧
+        stripMarkers (applyScripts (itemsOf ((startStream true done0 prog).polls sched).out
+            ++ ((startStream true done0 prog).polls sched).b.syncBuf))
+          = partialDocOps shown prog
+
+/-- **C07_fallback_until_ready** at the level of one `poll_next` call (proved; all programs, both modes): a poll that
+    finds the future at the head of its queue not ready does not touch the text that has been pushed — an in-order
+    stream returns `Pending` with its state unchanged (nothing behind the future is emitted), an out-of-order stream
+    rotates the queue and at most flushes the buffer as it is (the fallback inside it is neither replaced nor removed).
+    Content is spliced only under `Fut.ready` (`pollStep`: the only calls of `resolveAsync` / `resolveOoo`). -/
+theorem C07_fallback_until_ready (env : Env) (fuel : Nat) (b : Builder) :
+    (∀ p, b.pending = some p → p.fut.ready env p.born = false → pollNext (fuel + 1) env b = (Poll.pending, b)) ∧
+    (∀ p rest, b.pending = none → b.chunks = [] → b.pendingOoo = p :: rest → p.fut.ready env p.born = false →
+      pollNext (fuel + 1) env b =
+        if b.syncBuf.isEmpty then (Poll.pending, { b with pendingOoo := rest ++ [p] })
+        else (Poll.item b.syncBuf, { b with pendingOoo := rest ++ [p], syncBuf := [] })) := by
+  refine ⟨?_, ?_⟩
+  · intro p hp hr
+    simp [pollNext, pollStep, hp, hr]
+  · intro p rest hp hc ho hr
+    by_cases hb : b.syncBuf.isEmpty = true
+    · simp [pollNext, pollStep, yieldStep, hp, hc, ho, hr, hb]
+    · simp [pollNext, pollStep, yieldStep, hp, hc, ho, hr, hb]
 
 /-! ## refutations and witnesses (kernel-evaluated) -/
 
